@@ -7,6 +7,15 @@ from vlib import run_tlc, tlc_must_pass, qev, write_ndjson, read_ndjson, validat
 LEVEL = "model_checking"
 FIT = (1 << 31) - 1
 
+def vacuity(ctx, msg):
+    """A coverage hole is a tool error - unless the run already found violations: a defect may be the very
+    reason a class of outcomes disappeared, and the verdict must not be masked by the guard."""
+    if ctx.violations:
+        ctx.notes.append("vacuity guard not enforced because violations were found: " + msg)
+        return
+    raise vlib.ToolError(msg)
+
+
 
 # ------------------------------------------------------------------ judges
 def judge(r):
@@ -231,7 +240,7 @@ def run(ctx):
     ctx.set("real_features", feats)
     for k2, v in feats.items():
         if v == 0:
-            raise vlib.ToolError(f"no replayed instance exercised {k2}")
+            vacuity(ctx, f"no replayed instance exercised {k2}")
     for r in (r1[7], r1[len(r1) // 3], r1[-1]):
         ctx.sample({k: r[k] for k in ("sizes", "rows", "n", "arr", "opt", "per_node", "node_bytes", "node_rows", "idle", "det")})
     tight = next((r for r in r1 if r["opt"] > 0 and 3 * r["n"] * max(r["node_bytes"]) == (4 * r["n"] - 1) * r["opt"]), None)
